@@ -99,7 +99,7 @@ def _history(S, Monitored, REC, entry, n_ene_blocks, n_sr_blocks):
     return REC
 
 
-def cpmc_history(cls_name, steps=3):
+def cpmc_history(cls_name, steps=3, bad_up=None, field_rows=None):
     """D8-style history: 2 sites, trial (1,1) = [1;1] per spin, one good walker [1;1] and one walker [-10;11] in both spins
     (finite, non-zero overlap), h1 = 0, U = 4, dt = 0.05, zero fields.  Returns per-step weights / shift."""
     setup()
@@ -123,10 +123,12 @@ def cpmc_history(cls_name, steps=3):
         hd["hs_constant"] = jnp.sqrt(0.05 * 4.0) * jnp.ones(())
     good, bad = np.array([[1.0], [1.0]]), np.array([[-10.0], [11.0]])
     walkers = [jnp.array([good, bad]) + 0j, jnp.array([good, bad]) + 0j]
+    if bad_up is not None:        # second walker: given up block, dn block = the good one
+        walkers = [jnp.array([good, np.array(bad_up, dtype=float).reshape(2, 1)]) + 0j, jnp.array([good, good]) + 0j]
     pd = prop.init_prop_data(trial, wave, hd, walkers)
     pd["key"] = jax.random.PRNGKey(0)
     rec = dict(init_overlaps=np.asarray(pd["overlaps"]).tolist(), steps=[])
-    fields = jnp.zeros((2, norb))
+    fields = jnp.zeros((2, norb)) if field_rows is None else jnp.array(field_rows, dtype=float)
     for _ in range(steps):
         pd = prop.propagate(trial, hd, pd, fields, wave)
         rec["steps"].append(dict(weights=[float(x) for x in np.asarray(pd["weights"]).real], shift=float(np.asarray(pd["pop_control_ene_shift"]).real)))
@@ -149,6 +151,55 @@ def cpmc_violations(cls_name):
         if not np.isfinite(st["shift"]):
             bad.setdefault("shift_any", f"step {k}: shift {st['shift']} with weights {w}")
         prev = w
+    return bad, rec
+
+
+def prelude_rotation_deviation(entry="propagate_phaseless_ad_nosr", coupling=0.3, seed=11):
+    """native replay for C12 eq.<entry>.prelude.* of an orbital-rotating entry point: the energy it returns for (h1, coupling, op, wave_data) must equal the
+    energy of its non-rotating twin called with the prelude done by hand in the stated order: h1' = h1 + coupling*op, wave_data' = trial.optimize(h1', wave_data),
+    coupling 0.  The incoming orbitals are deliberately NOT the optimised ones, so intermediates built before optimize() differ."""
+    S = small_system(norb=4, nocc=2, nchol=3, seed=seed, restricted=True, n_walkers=4, dt=0.01)
+    import jax
+    import jax.numpy as jnp
+    from ad_afqmc import sampling
+    trial, wave, ham = S["trial"], S["wave"], S["ham"]
+    prop = S["prop_cls"](dt=0.01, n_walkers=4)
+    rng = np.random.default_rng(seed)
+    op = rng.normal(size=(S["norb"], S["norb"]))
+    op = jnp.array((op + op.T) / 2)
+    hd0 = dict(S["ham_data"])
+    hdi = ham.build_measurement_intermediates(dict(hd0), trial, wave)
+    hdi = ham.build_propagation_intermediates(hdi, prop, trial, wave)
+    pd = prop.init_prop_data(trial, wave, hdi)
+    pd["key"] = jax.random.PRNGKey(seed)
+    pd["n_killed_walkers"] = 0
+    smp = sampling.sampler(2, 2, 1, 1)
+    twin = entry + "_norot"
+    e_rot, _ = getattr(smp, entry)(ham, dict(hd0), coupling, op, prop, dict(pd), trial, dict(wave))
+    hd1 = dict(hd0)
+    hd1["h1"] = hd0["h1"] + coupling * op
+    wave1 = trial.optimize(dict(hd1), dict(wave))
+    moved = float(np.max(np.abs(np.abs(np.asarray(wave1["mo_coeff"])) - np.abs(np.asarray(wave["mo_coeff"])))))
+    e_ref, _ = getattr(smp, twin)(ham, dict(hd1), 0.0, op, prop, dict(pd), trial, dict(wave1))
+    dev = abs(complex(e_rot) - complex(e_ref))
+    return float(dev), dict(entry=entry, twin=twin, coupling=coupling, energy_entry=str(complex(e_rot)), energy_hand_prelude=str(complex(e_ref)), abs_deviation=float(dev),
+                            orbitals_moved_by_optimize=moved)
+
+
+def cpmc_node_crossing(cls_name="propagator_cpmc_continuous"):
+    """second native history for the continuous CPMC step: walker 1 has up block [1; -0.9] (overlap 0.1 > 0) and receives the fields (-2, +2), which carry
+    it across the node of the trial (new up overlap e^{-2c} - 0.9 e^{2c} < 0, dn overlap > 0): the importance function is finite and negative, so the
+    weight must become 0 and stay 0.  Returns (violations, record)."""
+    rec = cpmc_history(cls_name, steps=2, bad_up=[1.0, -0.9], field_rows=[[0.0, 0.0], [-2.0, 2.0]])
+    bad = {}
+    for k, st in enumerate(rec["steps"]):
+        w = st["weights"]
+        if any(not np.isfinite(x) or x < 0 for x in w):
+            bad.setdefault("step", f"step {k}: weights {w}")
+        if k == 0 and w[1] != 0.0:
+            bad.setdefault("step", f"step {k}: node-crossing walker keeps weight {w[1]}")
+        if k > 0 and rec["steps"][k - 1]["weights"][1] == 0.0 and w[1] != 0.0:
+            bad.setdefault("dead", f"step {k}: a weight that was 0 became {w[1]}")
     return bad, rec
 
 
@@ -259,6 +310,31 @@ def free_projection_deviation(steps=3, seed=5):
         o_recon = np.asarray(trial.calc_overlap(pd["walkers"], wave)) * np.asarray(pd["norms"])
         worst = max(worst, float(np.max(np.abs(o_stored - o_ref) / np.abs(o_ref))), float(np.max(np.abs(o_recon - o_ref) / np.abs(o_ref))))
     return worst, dict(steps=steps, max_rel_deviation_of_stored_overlap_from_unnormalised_product=worst)
+
+
+def free_block_deviation(seed=5):
+    """native replay for C05 fp.energy / fp.weight: one real sampler._block_scan_free block (2 free steps, QR inside) against
+    sum(E_L * overlaps) / sum(overlaps) and sum(overlaps) recomputed from the returned state, where the reference overlaps are those of the
+    un-normalised walkers: calc_overlap(stored walkers) * norms"""
+    S = small_system(norb=3, nocc=1, nchol=2, seed=seed, restricted=False, n_walkers=3, dt=0.05)
+    import jax
+    import jax.numpy as jnp
+    from ad_afqmc import sampling
+    trial, wave, ham = S["trial"], S["wave"], S["ham"]
+    prop = S["prop_cls"](dt=0.05, n_walkers=3)
+    hd = ham.build_measurement_intermediates(dict(S["ham_data"]), trial, wave)
+    hd = ham.build_propagation_intermediates(hd, prop, trial, wave)
+    pd = prop.init_prop_data(trial, wave, hd)
+    pd["key"] = jax.random.PRNGKey(seed)
+    pd["norms"] = jnp.ones(3) + 0j
+    smp = sampling.sampler(n_prop_steps=2, n_ene_blocks=1, n_sr_blocks=1, n_blocks=1)
+    out, (_, be, bw) = smp._block_scan_free(dict(pd), None, hd, prop, trial, wave)
+    ov = np.asarray(trial.calc_overlap(out["walkers"], wave)) * np.asarray(out["norms"])
+    e = np.asarray(trial.calc_energy(out["walkers"], hd, wave))
+    be_ref, bw_ref = np.sum(e * ov) / np.sum(ov), np.sum(ov)
+    dev = max(abs(complex(be) - be_ref) / abs(be_ref), abs(complex(bw) - bw_ref) / abs(bw_ref))
+    return float(dev), dict(block_energy=str(complex(be)), reference_energy=str(complex(be_ref)), block_weight=str(complex(bw)), reference_weight=str(complex(bw_ref)),
+                            max_rel_deviation=float(dev), norms_after=[str(complex(x)) for x in np.asarray(out["norms"])])
 
 
 def _propagate_free_no_qr(prop, trial, hd, pd, fields, wave):
